@@ -1,4 +1,6 @@
 import Operon.Lemmas.C06
+import Operon.Lemmas.C06Tab
+import Operon.Lemmas.C06TabW
 /-!
 # C06 — quorum decisions follow the votes: no PERMIT without sufficient permit support
 
@@ -581,5 +583,185 @@ theorem c06_monotonicity_needs_valid_witness :
 /-- idle voters exist in every flavour and change nothing: abstain, defer, raising, non-numeric confidence -/
 example : (runVote ⟨.confidence, none, 1⟩ [voterOf .permit 1 1, voterOf .other 2 1, voterOf .defer 2 1, voterOf .raises 2 1, ⟨.permit, .bad, 2, 1⟩, voterOf .block 1 1]).decision
     = (runVote ⟨.confidence, none, 1⟩ [voterOf .permit 1 1, voterOf .block 1 1]).decision := by decide +kernel
+
+
+/-! ### Decision tables evaluated from the real code on every run, reproduced by the model in the kernel
+
+`Operon.Gen.QuorumTables` is regenerated on every run by EVALUATING operon_ai/topology/quorum.py through its public
+API (constructor, `run_vote` on stubbed colonies; nothing is parsed).  The theorems below re-establish, with the
+tables of the current tree, that the model gives the same answer on every row, and lift the count table - by the
+lemma that a counting strategy sees a ballot only through its (permit, block, abstain, defer) profile - to EVERY
+electorate of at most 7 voters (the property's quantifier bound), whatever the weights, reliabilities, confidences,
+action types and failures. -/
+
+/-- `_protein_to_vote` reads the action type by whole-string equality, for every string: only "PERMIT" / "EXECUTE"
+    give a permit vote, only "BLOCK" a block, only "DEFER" a deferral; every other action type - empty, a fragment
+    or a superstring of those words, another case - is an abstention (whatever the payload and the profile). -/
+theorem c06_action_type_classification (s : List Nat) (c : Conf) (w r : Rat) :
+    ((toVote ⟨classifyAction s, c, w, r⟩).kind = .permit → s = permitCps ∨ s = executeCps) ∧
+    ((toVote ⟨classifyAction s, c, w, r⟩).kind = .block → s = blockCps) ∧
+    ((toVote ⟨classifyAction s, c, w, r⟩).kind = .defer → s = deferCps) ∧
+    (s ≠ permitCps → s ≠ executeCps → s ≠ blockCps → s ≠ deferCps →
+      (toVote ⟨classifyAction s, c, w, r⟩).kind = .abstain) := by
+  obtain ⟨h1, h2, h3, h4, h5⟩ := classifyAction_spec s
+  refine ⟨?_, ?_, ?_, ?_⟩
+  · intro h
+    rcases ((casts_permit_iff _).mp h).1 with h | h
+    · exact Or.inl (h1.mp h)
+    · exact Or.inr (h2.mp h)
+  · intro h; exact h3.mp ((casts_block_iff _).mp h).1
+  · intro h
+    apply h4.mp
+    cases hk : classifyAction s <;> cases c <;> simp_all [toVote, voteTypeOf, failedVote]
+  · intro n1 n2 n3 n4
+    have : classifyAction s = .other := by
+      unfold classifyAction; simp [n1, n2, n3, n4]
+    rw [this]
+    cases c <;> simp [toVote, voteTypeOf, failedVote]
+
+/-- the code point lists are the four words -/
+example : "PERMIT".toList.map Char.toNat = permitCps ∧ "EXECUTE".toList.map Char.toNat = executeCps ∧
+    "BLOCK".toList.map Char.toNat = blockCps ∧ "DEFER".toList.map Char.toNat = deferCps := by decide
+
+/-- Classification table: for every evaluated row - action-type strings (the four words, all their proper prefixes
+    and suffixes, case / blank variants, concatenations, the empty string, unrelated words) x payload shapes (not a
+    dict, no "confidence" key, numeric as float / int / bool / string, non-numeric, None, list) x profile weight and
+    reliability, and a raising agent - the vote the real `run_vote` recorded (type, confidence, weight) is the one
+    the model's `toVote` gives. -/
+theorem c06_classification_table_agrees :
+    classTableComplete = true ∧
+    ∀ row ∈ classTable, observedVote (toVote (rowVoter row.1)) = rowObserved row.2 := by
+  refine ⟨by decide, fun row hrow => ?_⟩
+  have := List.all_eq_true.mp classTable_ok row hrow
+  exact of_decide_eq_true this
+
+/-- Count tables: for every evaluated configuration (MAJORITY / SUPERMAJORITY / UNANIMOUS / THRESHOLD x custom
+    thresholds incl. none, 0, shares, counts, fractional counts x min_voters, and `EmergencyQuorum` with its default
+    and with custom thresholds) and EVERY electorate of at most 7 voters - any weights, reliabilities, confidences,
+    action types, failures - the model's outcome (reached & PERMIT / not reached & BLOCK / gated ABSTAIN /
+    ZeroDivisionError) is the digit the real code produced for that electorate's profile. -/
+theorem c06_count_tables_agree :
+    countTableComplete = true ∧
+    ∀ row ∈ countTable, ∃ cfg, cfgOfCode row.1 = some cfg ∧ NonNegThreshold cfg ∧
+      ∀ voters : List Voter, voters.length ≤ countMaxVoters →
+        (profileOf voters, outcomeCode cfg voters) ∈ decodeCount row.2 := by
+  refine ⟨by decide, fun row hrow => ?_⟩
+  obtain ⟨cfg, hc, hn, hcount, hdec⟩ := countRow_sound row hrow
+  refine ⟨cfg, hc, hn, fun voters hlen => ?_⟩
+  rw [hdec, outcome_eq_count cfg hcount voters]
+  apply List.mem_map.mpr
+  refine ⟨profileOf voters, ?_, rfl⟩
+  have hsum := profileOf_sum voters
+  rcases hp : profileOf voters with ⟨p, b, a, d⟩
+  rw [hp] at hsum
+  exact (mem_profilesUpTo _ p b a d).mpr (by simp only at hsum; omega)
+
+/-- Weight tables: for every evaluated configuration of WEIGHTED / CONFIDENCE / BAYESIAN (default and custom
+    thresholds, min_voters 0 / 1 / 2) and every multiset of at most 3 voters over the 13-voter alphabet (dyadic
+    weights, reliabilities and confidences incl. 0, absent confidence, a clamping weight, idle and failing voters),
+    the digit the real code produced is the model's outcome - except the ballots marked 7, whose exact Bayesian
+    posterior lies within 1e-6 of the threshold (IEEE rounding decides those; they are not compared). -/
+theorem c06_weight_tables_agree :
+    weightTableComplete = true ∧
+    ∀ row ∈ weightTable, ∃ cfg, cfgOfCode row.1 = some cfg ∧
+      ∀ (i : Nat) (ballot : List Voter) (d : Nat), weightBallots[i]? = some ballot →
+        (unpack weightBallots.length row.2)[i]? = some d → d = 7 ∨ d = outcomeCode cfg ballot := by
+  refine ⟨by decide, fun row hrow => ?_⟩
+  have h := List.all_eq_true.mp weightTable_ok row hrow
+  unfold weightRowOk at h
+  cases hc : cfgOfCode row.1 with
+  | none => simp [hc] at h
+  | some cfg =>
+    simp only [hc] at h
+    refine ⟨cfg, rfl, fun i ballot d hb hd => ?_⟩
+    exact (agreeB_get h).2 i d (outcomeCode cfg ballot) hd (by simp [List.getElem?_map, hb])
+
+/-- The outcomes the real code produced, judged by the general theorems (not by inspection of the digits): in every
+    row of the count tables a PERMIT digit sits only at a profile with a permit vote and at least `min_voters` active
+    votes (`c06_no_permit_without_permit_vote`), under UNANIMOUS never at a profile with a block
+    (`c06_block_defeats_unanimous`), and every profile of permits only - at least one, at least `min_voters`, the
+    criterion attainable - carries the PERMIT digit (`c06_unanimous_permit_is_permit`). -/
+theorem c06_evaluated_outcomes_obey_the_clauses :
+    ∀ row ∈ countTable, ∃ cfg, cfgOfCode row.1 = some cfg ∧
+      ∀ pr d, (pr, d) ∈ decodeCount row.2 →
+        (d = 1 → 0 < pr.1 ∧ cfg.minVoters ≤ pr.1 + pr.2.1) ∧
+        (d = 1 → cfg.strategy = .unanimous → pr.2.1 = 0) ∧
+        (0 < pr.1 → pr.2.1 = 0 → pr.2.2.1 = 0 → pr.2.2.2 = 0 → cfg.minVoters ≤ pr.1 → Attainable cfg pr.1 →
+          d = 1) := by
+  intro row hrow
+  obtain ⟨cfg, hc, hn, hcount, hdec⟩ := countRow_sound row hrow
+  refine ⟨cfg, hc, fun pr d hmem => ?_⟩
+  rw [hdec, List.mem_map] at hmem
+  obtain ⟨pr', -, heq⟩ := hmem
+  obtain ⟨rfl, rfl⟩ := Prod.mk.inj heq
+  -- the digit is the outcome of the plain electorate of that profile
+  have hout : countOutcome cfg pr' = outcomeCode cfg (plainVoters pr') := by
+    rw [outcome_eq_count cfg hcount, profileOf_plain]
+  have hprof := profileOf_plain pr'
+  rw [profileOf_eq] at hprof
+  have hP : nP (collect (plainVoters pr')) = pr'.1 := congrArg Prod.fst hprof
+  have hB : nB (collect (plainVoters pr')) = pr'.2.1 := congrArg (fun x => x.2.1) hprof
+  have hlen : (plainVoters pr').length = pr'.1 + pr'.2.1 + pr'.2.2.1 + pr'.2.2.2 := by
+    have := profileOf_sum (plainVoters pr'); rw [profileOf_plain] at this; exact this.symm
+  -- digit 1 = reached and PERMIT
+  have hone : countOutcome cfg pr' = 1 → (runVote cfg (plainVoters pr')).decision = .permit := by
+    intro h1
+    rw [hout] at h1
+    unfold outcomeCode at h1
+    by_cases hr : runVoteRaises cfg (plainVoters pr') = true
+    · simp [hr] at h1
+    · simp only [hr] at h1
+      revert h1
+      cases (runVote cfg (plainVoters pr')).reached <;> cases (runVote cfg (plainVoters pr')).decision <;>
+        simp [codeOf]
+  refine ⟨fun h1 => ?_, fun h1 hs => ?_, fun hp hb ha hd hmv hatt => ?_⟩
+  · have hdec1 := hone h1
+    have hr := (c06_permit_iff_reached cfg _).mp hdec1
+    have hgate := ((run_reached_iff cfg _).mp hr).1
+    rw [hP, hB] at hgate
+    refine ⟨?_, hgate⟩
+    by_contra hzero
+    have hnone : ∀ v ∈ plainVoters pr', (toVote v).kind ≠ .permit := by
+      intro v hv hk
+      have : 0 < nP (collect (plainVoters pr')) :=
+        (nP_pos_iff _).mpr ⟨toVote v, by unfold collect; exact List.mem_map.mpr ⟨v, hv, rfl⟩, hk⟩
+      omega
+    exact (c06_no_permit_without_permit_vote cfg _ hn hnone).2 hdec1
+  · have hdec1 := hone h1
+    by_contra hblock
+    have : 0 < nB (collect (plainVoters pr')) := by omega
+    obtain ⟨x, hx, hk⟩ := (nB_pos_iff _).mp this
+    unfold collect at hx
+    obtain ⟨v, hv, rfl⟩ := List.mem_map.mp hx
+    exact (c06_block_defeats_unanimous cfg _ hs ⟨v, hv, hk⟩).2 hdec1
+  · have hne : plainVoters pr' ≠ [] := by
+      intro h; rw [h] at hlen; simp at hlen; omega
+    have hall : ∀ v ∈ plainVoters pr', (toVote v).kind = .permit := by
+      intro v hv
+      unfold plainVoters at hv
+      rw [hb, ha, hd] at hv
+      simp only [List.replicate_zero, List.append_nil, List.mem_replicate] at hv
+      rw [hv.2]; rfl
+    have hlen' : (plainVoters pr').length = pr'.1 := by omega
+    have hsup : Supported cfg (collect (plainVoters pr')) := by
+      unfold Supported
+      cases hs : cfg.strategy <;> simp only [] <;>
+        first | (rw [hs] at hcount; exact absurd hcount (by decide)) | exact True.intro
+    have hres := c06_unanimous_permit_is_permit cfg (plainVoters pr') hne hall (by omega)
+      (plainVoters_valid pr') (by rw [hlen']; exact hatt) hsup
+    -- back from the decision to the digit
+    have hnr : runVoteRaises cfg (plainVoters pr') = false := c06_run_vote_returns cfg _ hne
+    rw [hout]
+    unfold outcomeCode
+    simp only [hnr, Bool.false_eq_true, if_false, hres.1, hres.2]
+    rfl
+
+set_option maxRecDepth 100000 in
+/-- the table theorems are about something: 87 count configurations x 330 profiles, 18 weight configurations x 560
+    ballots, 525 classification rows on the current tree; e.g. the first count row is MAJORITY, default threshold,
+    `min_voters = 0`, and its digit for the profile (1 permit, 1 block) is 2 = BLOCK (a tie is not a majority) -/
+example : countTable.length = 87 ∧ weightTable.length = 18 ∧ classTable.length = 525 ∧
+    (profilesUpTo countMaxVoters).length = 330 ∧ weightBallots.length = 560 ∧
+    ((1, 1, 0, 0), 2) ∈ decodeCount (countTable.head!).2 := by decide +kernel
 
 end Operon.Quorum
